@@ -184,7 +184,10 @@ def date_getattr(interp, o, name):
         if name in ('year', 'month', 'day'):
             t = {'year': o.y, 'month': o.m, 'day': o.d}[name]
             return t.val if t.is_const else SInt(t)
-        if name in ('hour', 'minute', 'second', 'microsecond'):
+        if name in ('hour', 'minute', 'second'):
+            t = getattr(o, {'hour': 'h', 'minute': 'mi', 'second': 's'}[name], None)
+            return 0 if t is None else SInt(t)
+        if name == 'microsecond':
             return 0
     if isinstance(o, DeltaVal):
         if name == 'days':
@@ -192,3 +195,23 @@ def date_getattr(interp, o, name):
         if name in ('seconds', 'microseconds'):
             return 0
     raise Unsupported('attribute %s of %r' % (name, o))
+
+
+def _now(interp, tz=None):
+    """datetime.datetime.now(): a fresh, arbitrary instant on every call (ghost list `now_calls`)."""
+    ctx = interp.ctx
+    calls = ctx.ghost.setdefault('now_calls', [])
+    i = len(calls)
+    k = ctx.fresh('now%d.ordinal' % i, tm.INT)
+    ctx.assume(tm.mk_le(c(datetime.date(1900, 3, 1).toordinal()), k))
+    ctx.assume(tm.mk_le(k, c(MAXORD)))
+    d = date_from_ord(interp, k)
+    d.h, d.mi, d.s = (ctx.fresh('now%d.%s' % (i, n), tm.INT) for n in ('h', 'mi', 's'))
+    for t, hi in ((d.h, 23), (d.mi, 59), (d.s, 59)):
+        ctx.assume(tm.mk_le(c(0), t))
+        ctx.assume(tm.mk_le(t, c(hi)))
+    calls.append(d)
+    return d
+
+
+BUILTINS[datetime.datetime.now] = _now
